@@ -34,7 +34,7 @@ def value_specs(seed):
     specs = []
     inst = list(INSTANTS)
     rnd = random.Random("c13/%d" % seed)
-    for _ in range(4):
+    for _ in range(40 if os.environ.get("VERIF_TIER_C13") == "thorough" else 4):
         inst.append((rnd.randrange(2, 9999), rnd.randrange(1, 13), rnd.randrange(1, 29), rnd.randrange(24), rnd.randrange(60), rnd.randrange(60), rnd.randrange(10**6)))
     for i in inst:
         for z in ZONES:
@@ -239,6 +239,7 @@ def main(tier, seed, workers=None):
         env = dict(os.environ)
         env["VERIF_ROOT"] = root
         env["VERIF_SEED"] = str(seed)
+        env["VERIF_TIER_C13"] = tier
         for k, v in (("FLOW_RECORD_TZ", tz), ("TZ", ostz)):
             if v is None:
                 env.pop(k, None)
